@@ -448,5 +448,27 @@ pub fn too_large_error(len: usize) -> (e: Error) { unimplemented!() }
         res.is_ok() ==> read.data().len() <= 0xffff_ffff && ws_end(read.data(), T::consumed(read.data())) == read.data().len(),
 //@end
 
+// ---- lossy mode (found F19): the offset consumed in the repaired copy of the input is mapped back to the input
+// substitution target for the `match std::str::from_utf8(&json[origin..]) { Ok(s) => (s.len(), 0), Err(e) => (..) }`
+// expression: std's UTF-8 validation (T4) splits the rest into a valid prefix and, if it is not everything, one maximal
+// invalid sequence of at least one byte
+#[verifier::external_body]
+pub fn utf8_split(json: &[u8], origin: usize) -> (r: (usize, usize))
+    requires origin < json@.len(),
+    ensures r.0 + r.1 <= json@.len() - origin, r.0 + r.1 >= 1, r.1 == 0 ==> r.0 == json@.len() - origin,
+{ unimplemented!() }
+//@extract file=src/serde/de.rs fn=lossy_offset_to_origin
+//@attr
+#[verifier::loop_isolation(false)]
+//@subst /match std::str::from_utf8\(&json\[origin\.\.\]\) \{\s*Ok\(s\) => \(s\.len\(\), 0\),\s*Err\(e\) => \(\s*e\.valid_up_to\(\),\s*e\.error_len\(\)\.unwrap_or\(json\.len\(\) - origin - e\.valid_up_to\(\)\),\s*\),\s*\}/ => utf8_split(json, origin)
+//@sig
+    requires json@.len() <= 0x3fff_ffff_ffff_ffff,
+    // the reader is advanced by this amount: it must stay inside the input
+    ensures res <= json@.len(),
+//@loop 1
+        invariant origin <= json@.len(), lossy <= 3 * origin, lossy <= lossy_off,
+        decreases json@.len() - origin,
+//@end
+
 } // verus!
 fn main() {}
